@@ -5,13 +5,14 @@ import VOPyVerif.Model.Acq
 Numbers are exact rationals, `<vals>` a vector, `<table>` a matrix with one row per objective
 (`table[j][i]` = value of choice row `i` for objective `j`), `<q>` a natural number.
 
-* `optd <vals> <q>`                       → `err` | `<positions> <values>` — `Acq.optimizeDiscrete`
-  (`err` = the code's crash for `q > len(choices)`)
-* `optdtotal <vals> <q>`                  → `<positions> <values>` — `Acq.optimizeDiscreteTotal`
+* `optd <vals> <q>`                       → `<positions> <values>` — `Acq.optimizeDiscrete`
+  (`empty` for an empty value list: the real function cannot return a batch there)
+* `optdprefix <vals> <q>`                 → `err` | `<positions> <values>` —
+  `Acq.optimizeDiscretePreFix` (`err` = the pre-fix crash for `q > len(choices)`, defect D7)
 * `specd <vals> <q> <positions> <values>` → `ok` | `fail` — relation (R) `Acq.discSpecOk`
 * `firstd <vals> <positions> <values>`    → `ok` | `fail` — `Acq.discFirstOk` (np.argmax tie rule)
-* `optdec <table> <q>`                    → `err` | `<positions> <objectives> <values>` —
-  `Acq.optimizeDecoupled`
+* `optdec <table> <q>`                    → `<positions> <objectives> <values>` —
+  `Acq.optimizeDecoupled` (`empty` if the table has no objective or an objective has no row)
 * `specdec <table> <q> <positions> <objectives> <values>` → `ok` | `fail` — `Acq.decSpecOk`
 * `diagsq <lower> <upper>`                → rational `Acq.diagSq`
 * `sumvar <cov>`                          → rational `Acq.sumVariance`
@@ -24,7 +25,7 @@ Numbers are exact rationals, `<vals>` a vector, `<table>` a matrix with one row 
 * `empadd <n> <samples (mats, one matrix per design)> <indices> <Y>` → `err` | `<samples'>` —
   `Acq.empAddSample` (`n` designs; missing trailing sample lists are empty)
 * `step <inputDim> <designs> <vals> <q> <obs (row i = observation of design row i)> <dataX> <dataY>`
-  → `err` | `<candidates> <dataX'> <dataY'>` — `Acq.evaluatingStep`
+  → `<candidates> <dataX'> <dataY'>` — `Acq.evaluatingStep`
 -/
 namespace VOPy.Drv.C07
 open VOPy VOPy.Proto VOPy.Acq
@@ -51,14 +52,14 @@ def handle (args : List String) : String :=
   match args with
   | ["optd", v, q] =>
     match parseVec v, q.toNat? with
+    | some vals, some q => if vals.isEmpty then "empty" else fmtPicks (optimizeDiscrete vals q)
+    | _, _ => bad
+  | ["optdprefix", v, q] =>
+    match parseVec v, q.toNat? with
     | some vals, some q =>
-      match optimizeDiscrete vals q with
+      match optimizeDiscretePreFix vals q with
       | none => "err"
       | some p => fmtPicks p
-    | _, _ => bad
-  | ["optdtotal", v, q] =>
-    match parseVec v, q.toNat? with
-    | some vals, some q => fmtPicks (optimizeDiscreteTotal vals q)
     | _, _ => bad
   | ["specd", v, q, ps, vs] =>
     match parseVec v, q.toNat?, parseNats ps, parseVec vs with
@@ -75,9 +76,7 @@ def handle (args : List String) : String :=
   | ["optdec", t, q] =>
     match parseMat t, q.toNat? with
     | some table, some q =>
-      match optimizeDecoupled table q with
-      | none => "err"
-      | some p => fmtEntries p
+      if table.isEmpty || table.any (·.isEmpty) then "empty" else fmtEntries (optimizeDecoupled table q)
     | _, _ => bad
   | ["specdec", t, q, ps, os, vs] =>
     match parseMat t, q.toNat?, parseNats ps, parseNats os, parseVec vs with
@@ -140,9 +139,8 @@ def handle (args : List String) : String :=
         if designs.length ≠ vals.length ∨ designs.length ≠ obs.length then bad
         else
           let observe := fun (x : Vec) => ((designs.zip obs).lookup x).getD []
-          match evaluatingStep d designs vals q observe data with
-          | none => "err"
-          | some (cand, data') => fmtMat cand ++ " " ++ fmtObs data'
+          let (cand, data') := evaluatingStep d designs vals q observe data
+          fmtMat cand ++ " " ++ fmtObs data'
     | _, _, _, _, _, _, _ => bad
   | _ => bad
 
